@@ -33,6 +33,10 @@ def vop(op, i):
     if k == 'transferOp':
         return '(VTransferOp %s %s)' % (c, H(op['a']))
     if k == 'withdrawRefund':
+        if op.get('repeat'):
+            # called with the argument given twice: the framework refuses the call (wrong number of arguments).  The model has no such
+            # call shape; it is represented by a call the model refuses as well (a payment attached to this non-payable endpoint).
+            c = c.replace('x_value := {| cv_egld := 0;', 'x_value := {| cv_egld := 1;')
         return '(VWithdrawRefund %s %s %d)' % (c, H(op['token']), op['nonce'])
     raise ValueError(k)
 
